@@ -38,19 +38,23 @@ Proof.
     + destruct W as (A & B & C & D & E). apply sec_ok_version; auto.
     + destruct W as (A & B & C). apply sec_ok_depex; auto.
     + destruct W as (A & B). apply sec_ok_fv; [apply v_ok; exact A|exact B].
-  - destruct f as [g ckh ckf t attr state body|g t attr state secs]; cbn [wf_f emit_f FfsGrammar.wf_f];
-      unfold in_range; intros W.
+  - destruct f as [g ckh ckf t attr state body|g ckh ckf t attr state body|g t attr state secs];
+      cbn [wf_f emit_f FfsGrammar.wf_f]; unfold in_range; intros W.
     + destruct W as (A & B & C & D & E & F & G & H & I & J & K). apply file_ok_opaque; auto.
+    + destruct W as (A & B & C & D & E & F & G & H & I & J & K). apply file_ok_opaque_large; auto.
     + destruct W as (A & B & C & D & E & F & G & H & I & J).
       apply file_ok_sections; auto.
       * intro Hn. apply H. destruct secs; [reflexivity|discriminate].
       * rewrite Forall_map. clear - s_ok I.
         induction secs as [|a r IH]; [constructor|]. cbn [map fold_right] in I. destruct I as [Ia Ir].
         constructor; [apply s_ok; exact Ia | apply IH; exact Ir].
-  - destruct v as [zero g attrs reserved rev count bsize files free]; cbn [wf_v emit_v FfsGrammar.wf_v];
+  - destruct v as [zero g attrs reserved rev count bsize more xh files free]; cbn [wf_v emit_v FfsGrammar.wf_v];
       unfold in_range; intros W.
-    destruct W as (A & B & C & D & E & F & G & H & I & J & K & L & M & N).
-    apply vol_ok_files; auto.
+    destruct W as (A & B & C & D & E & F & G & H & I & J & K & L & M & N & X & Y & Z0).
+    apply vol_ok_files_x; auto.
+    { destruct xh as [[[n e] gp]|]; [right|left; split; reflexivity].
+      split; [reflexivity|]. exists n, e, gp. cbn [wf_xh xh_bytes] in *.
+      destruct X as (X1 & X2 & X3 & X4 & X5 & X6 & X7). repeat split; auto. }
     rewrite Forall_map. clear - f_ok K.
     induction files as [|a r IH]; [constructor|]. cbn [map fold_right] in K. destruct K as [Ka Kr].
     constructor; [apply f_ok; exact Ka | apply IH; exact Kr].
@@ -59,7 +63,7 @@ Qed.
 Lemma emit_v_sig v : wf_v v -> sub 40 4 (emit_v v) = FVH /\ 72 <= zlen (emit_v v).
 Proof.
   intros W. pose proof (v_ok v W) as (_ & L & _).
-  destruct v as [zero g attrs reserved rev count bsize files free].
+  destruct v as [zero g attrs reserved rev count bsize more xh files free].
   cbn [FfsGrammar.wf_v] in W. destruct W as (A & B & C & _).
   split; [|exact L]. cbn [emit_v].
   apply (vol_bytes_sig dec enc u2s s2u nvar); auto. destruct C as [-> | ->]; reflexivity.
@@ -107,8 +111,11 @@ Proof.
     + apply bytes_eqb_eq in B2. repeat split; auto; lia.
     + repeat split; auto; lia.
     + split; [apply wfb_v_sound; exact H|lia].
-  - destruct f as [g ckh ckf t attr state body|g t attr state secs]; cbn [wfb_f wf_f]; unfold rng, in_range; intros H;
-      split_andb H.
+  - destruct f as [g ckh ckf t attr state body|g ckh ckf t attr state body|g t attr state secs];
+      cbn [wfb_f wf_f]; unfold rng, in_range; intros H; split_andb H.
+    + repeat match goal with |- _ /\ _ => split end; auto; try lia.
+      all: try (destruct ((t =? 1) && bytes_eqb g NVAR_GUID); [discriminate|reflexivity]).
+      all: try (destruct (supported_file t); [right; destruct body; [reflexivity|discriminate]|left; reflexivity]).
     + repeat match goal with |- _ /\ _ => split end; auto; try lia.
       all: try (destruct ((t =? 1) && bytes_eqb g NVAR_GUID); [discriminate|reflexivity]).
       all: try (destruct (supported_file t); [right; destruct body; [reflexivity|discriminate]|left; reflexivity]).
@@ -119,8 +126,12 @@ Proof.
         split; [apply wfb_s_sound; exact Ba|apply IH; exact Br]. }
       repeat match goal with |- _ /\ _ => split end; auto; try lia.
       all: try (destruct secs; [discriminate|congruence]).
-  - destruct v as [zero g attrs reserved rev count bsize files free]; cbn [wfb_v wf_v]; unfold rng, in_range; intros H;
+  - destruct v as [zero g attrs reserved rev count bsize more xh files free]; cbn [wfb_v wf_v]; unfold rng, in_range; intros H;
       split_andb H.
+    assert (Hxh : wf_xh (fv_hlen more) xh).
+    { match goal with Hx : wfb_xh _ xh = true |- _ => revert Hx end. clear.
+      destruct xh as [[[n e] gp]|]; cbn [wfb_xh wf_xh]; [|intros _; exact I]. intros Hx.
+      split_andb Hx. repeat split; auto; lia. }
     assert (Hfiles : fold_right and True (map (wf_f u2s s2u) files)).
     { match goal with Hx : forallb _ files = true |- _ => revert Hx end.
       clear - wfb_f_sound. induction files as [|a r IH]; intros Hx; [exact I|]. cbn [forallb] in Hx.
